@@ -769,7 +769,7 @@ def selftest(prop, verbose=False):
         finally:
             shutil.rmtree(m, ignore_errors=True)
 
-    with cf.ThreadPoolExecutor(4) as ex:
+    with cf.ThreadPoolExecutor(3) as ex:
         for res in ex.map(one, pats):
             out.append(res)
             if verbose:
